@@ -4,6 +4,10 @@
    true = the repaired code (work/fixes/C18-remove-key.diff; theorem C18_index_refines_fixed, unguarded).
    Flip this ONE constant when the fix is committed to /repo. *)
 let fixed_remove = true
+(* GetBestMatchReferFile as modelled: true = repaired by fixes/C09-deterministic-order.diff (score ties broken by the
+   path: one answer), false = before (any best-scored candidate: set-valued answers, AMBIG after a tie decided the
+   control flow) *)
+let fixed_order = true
 let split_list s = if s = "-" || s = "" then [] else String.split_on_char ',' s
 let uniq l = List.sort_uniq compare l
 let set_s l = "{" ^ String.concat "|" (uniq l) ^ "}"
@@ -96,7 +100,8 @@ let () = register "c18.resolve" (fun line ->
   | [rooth; exact; kind; curh; referh; files; ign] ->
     let t = parse_tree rooth files in
     let cfg = { exact_mode = (exact = "1"); ignore_refer = List.map bytes_of_hex (split_list ign);
-                ignore_modules = system_modules; main_dir = t.root } in
+                ignore_modules = system_modules; main_dir = t.root;
+                order_fixed = fixed_order } in
     let st = idx_run (List.map (fun p -> Ins p) t.indexed) in
     let cur = t.root @ (slash_n :: bytes_of_hex curh) in
     let refer = bytes_of_hex referh in
@@ -127,7 +132,8 @@ let () = register "c18.project" (fun line ->
   | [rooth; files; curh; refs; evs] ->
     let t = parse_tree rooth files in
     let cur = t.root @ (slash_n :: bytes_of_hex curh) in
-    let cfg = { exact_mode = false; ignore_refer = []; ignore_modules = system_modules; main_dir = t.root } in
+    let cfg = { exact_mode = false; ignore_refer = []; ignore_modules = system_modules; main_dir = t.root;
+                order_fixed = fixed_order } in
     let refl = List.map (fun r -> ((if r.[0] = 'd' then KSuffix else KRequire), bytes_of_hex (String.sub r 1 (String.length r - 1)))) (split_list refs) in
     let disk0 = List.map bytes_of_string t.diskl @ [cur] in
     let lua0 = t.indexed @ [cur] in
@@ -146,7 +152,7 @@ let () = register "c18.project" (fun line ->
         let loaded = uniq (List.map (rel_s t.root) (if r.rs_valid then r.rs_vstr else [])) in
         let loaded = if loaded = [] then ["-"] else loaded in
         let items = open_list (k = KRequire) (k = KSuffix) str in
-        let oo = open_outcomes s.ps_idx (fun f -> mem_bytes f s.ps_loaded) cur items in
+        let oo = open_outcomes cfg s.ps_idx (fun f -> mem_bytes f s.ps_loaded) cur items in
         let defs = uniq (List.map (function Some (_, f) -> rel_s t.root f | None -> "-") oo) in
         let hovs = uniq (List.map (function Some (it, _) -> hex_of_bytes it | None -> "-") oo) in
         let agree = if List.length loaded <= 1 && List.length defs <= 1 then (if loaded = defs then "{1}" else "{0}") else "{0|1}" in
